@@ -9,6 +9,7 @@ decides the restoration / stack-discipline / alignment conditions for all
 machine states; Constraints values are enumerated.
 """
 import re
+import uuid
 
 import gtirb
 
@@ -304,6 +305,62 @@ def classify(rec):
 TIER = "quick"
 
 
+def h_leaf_plumbing(eng):
+    """The 'may be a leaf function' bit that RewritingContext hands to the ABI (it decides the red-zone skip): True for a
+    block outside every known function, otherwise the leafFunctions entry, which defaults to 'no call edge leaves the
+    function' for functions given to the context."""
+    import gtirb_functions
+    import gtirb_rewriting
+    from gtirb_rewriting import Constraints, Patch, RewritingContext, _auxdata
+
+    ir = gtirb.IR()
+    m = gtirb.Module(name="m", isa=gtirb.Module.ISA.X64, file_format=gtirb.Module.FileFormat.ELF, ir=ir,
+                     byte_order=gtirb.Module.ByteOrder.Little)
+    sect = gtirb.Section(name=".text", module=m, flags={gtirb.Section.Flag.Readable, gtirb.Section.Flag.Executable,
+                                                        gtirb.Section.Flag.Loaded, gtirb.Section.Flag.Initialized})
+    bi = gtirb.ByteInterval(contents=b"\x90\xc3" * 2 + b"\xe8\x00\x00\x00\x00\xc3" + b"\x90\xc3", address=0x1000, section=sect)
+    leafb = gtirb.CodeBlock(offset=0, size=2, byte_interval=bi)
+    orphan = gtirb.CodeBlock(offset=2, size=2, byte_interval=bi)
+    callb = gtirb.CodeBlock(offset=4, size=6, byte_interval=bi)
+    unknown = gtirb.CodeBlock(offset=10, size=2, byte_interval=bi)
+    ext = gtirb.ProxyBlock(module=m)
+    ir.cfg.add(gtirb.Edge(callb, ext, gtirb.Edge.Label(gtirb.Edge.Type.Call, direct=True)))
+    names = {}
+    fb, fe, fn = {}, {}, {}
+    for name, b in (("leaf", leafb), ("caller", callb), ("unknown", unknown)):
+        u = uuid.uuid4()
+        sym = gtirb.Symbol(name, payload=b, module=m)
+        fb[u], fe[u], fn[u] = {b}, {b}, sym
+        names[name] = u
+    m.aux_data["functionBlocks"] = gtirb.AuxData(fb, "mapping<UUID,set<UUID>>")
+    m.aux_data["functionEntries"] = gtirb.AuxData(fe, "mapping<UUID,set<UUID>>")
+    m.aux_data["functionNames"] = gtirb.AuxData(fn, "mapping<UUID,UUID>")
+    funcs = [f for f in gtirb_functions.Function.build_functions(m) if f.uuid != names["unknown"]]
+    table = eng.choose("leafFunctions", ["absent", "leaf=0", "caller=1"])
+    if table != "absent":
+        _auxdata.leaf_functions.get_or_insert(m)[names["leaf" if table == "leaf=0" else "caller"]] = 0 if table == "leaf=0" else 1
+    where = eng.choose("where", ["leaf", "caller", "orphan", "unknown"])
+    blk = {"leaf": leafb, "caller": callb, "orphan": orphan, "unknown": unknown}[where]
+    ctx = RewritingContext(m, funcs)
+    seen = []
+    real = ctx._abi._create_prologue_and_epilogue
+
+    def spy(constraints, registers, is_leaf):
+        seen.append(is_leaf)
+        return real(constraints, registers, is_leaf)
+    ctx._abi._create_prologue_and_epilogue = spy
+    ctx.insert_at(blk, 0, Patch.from_function(lambda c: "nop", Constraints(clobbers_flags=True)))
+    ctx.apply()
+    want = {"leaf": table != "leaf=0", "caller": table == "caller=1", "orphan": True, "unknown": True}[where]
+    eng.check(len(seen) == 1 and bool(seen[0]) == want,
+              "block %s, leafFunctions %s: the ABI was told is_leaf=%r, expected %r" % (where, table, seen, want))
+    # and the consequence on x86-64 ELF: the first thing a flag-clobbering patch does in a possible leaf is skip the red zone
+    data = bytes(bi.contents[blk.offset:blk.offset + 8])
+    skips = data.startswith(bytes.fromhex("488da42480ffffff")) or data.startswith(bytes.fromhex("488d6424 80".replace(" ", "")))
+    eng.check(skips == want, "red-zone skip %s for a patch in block %s (is_leaf expected %r): %s" % (
+        "present" if skips else "missing", where, want, data.hex()))
+
+
 def make_check(tier):
     global TIER
     TIER = tier
@@ -316,7 +373,10 @@ def make_check(tier):
                 for preserve in (False, True):
                     chk.add("prologue/%s/flags%d/align%d/preserve%d" % (abiname, flags, align, preserve), h_prologue,
                             params=dict(abiname=abiname, flags=flags, align=align, preserve=preserve), timeout=3000)
+    chk.add("leaf-plumbing/x64-elf", h_leaf_plumbing, timeout=600)
     chk.bounds = {
+        "leaf bit": "RewritingContext -> ABI: block in a leaf function, in a calling function, outside every function, in a function "
+                    "the context was not given; leafFunctions table absent or overriding either way",
         "configurations (enumerated)": "5 ABIs x clobbers_flags x align_stack x preserve_caller_saved_registers x scratch 0..3 x "
                                        "leaf/non-leaf x 6 clobber sets (none, 1, 2, 3 registers, a non-scratch register, a "
                                        "sub-register alias) x 4 read sets (none, 1, alias, 2)",
